@@ -153,8 +153,8 @@ PROPS = {
     ),
     'C16': dict(
         families=['typed'], reports=['marshal', 'unmarshal'],
-        proof_files=TYPED_U + ['Proofs/SkipEmptyP.v'],
-        theorems='c16_by_name, c16_by_name_fuel, c16_strict_unknown_rejected, c16_strict_deprecated_skipped, c16_unknown_skipped, c16_skip_is_structural, c16_skip_empty_fields_exact, c16_kept_fields_spec, c16_noskip_all_fields, c16_skip_empty_roundtrip(_fuel), c16_normal_se_equiv (+ c16_merge_edge, c16_skip_empty_merge_edge: the zero-target edge)',
+        proof_files=TYPED_U + ['Proofs/SkipEmptyP.v', 'Proofs/RecycledP.v'],
+        theorems='c16_slice_target_appends, c16_slice_target_recycled, c16_bytes_token_replaces [a recycled target: what a slice held influences the result only as a prefix]; c16_by_name, c16_by_name_fuel, c16_strict_unknown_rejected, c16_strict_deprecated_skipped, c16_unknown_skipped, c16_skip_is_structural, c16_skip_empty_fields_exact, c16_kept_fields_spec, c16_noskip_all_fields, c16_skip_empty_roundtrip(_fuel), c16_normal_se_equiv (+ c16_merge_edge, c16_skip_empty_merge_edge: the zero-target edge)',
         assumptions=['by-name theorem: common fields from the round-trip universe (simple_ty) with identical types and zero initial content; other field types are decided by the correspondence',
                      'skip-empty: "exactly the empty fields are omitted" is an equation for every struct type; the round trip of the shortened stream is proved on the round-trip universe (simple_ty), maps / interfaces / funcs as field types by the correspondence (marshal model with skip_empty) and Go oracles; is_zero mirrors reflect.Value.IsZero (validated by the correspondence)'],
     ),
